@@ -28,6 +28,33 @@ def extract(n, roots, defs=None, local_atoms=None, depth=0, bool_atoms=None):
     if depth > 20:
         raise Opaque(n, "too deep")
     k = n.get("k")
+    rec = lambda x: extract(x, roots, defs, local_atoms, depth + 1, bool_atoms)
+    ite = lambda c, a, b: ("or", ("and", c, a), ("and", ("not", c), b))
+    if k in ("blockexpr", "block"):
+        # a block with early returns: `if c { return a; } rest`  ==  if c {a} else {rest}
+        blk = n["b"] if k == "blockexpr" else n
+        items = list(blk["stmts"]) + ([blk["tail"]] if "tail" in blk else [])
+
+        def seq(i):
+            if i >= len(items):
+                raise Opaque(n, "block without a value")
+            s_ = items[i]
+            e = s_["e"] if s_.get("k") == "semi" else s_
+            if e.get("k") == "let":
+                return seq(i + 1)          # bool lets are followed through defs when used
+            if e.get("k") == "if" and i < len(items) - 1:
+                t = e["then"]
+                if "else" not in e:
+                    return ite(rec(e["cond"]), rec(t), seq(i + 1))
+                raise Opaque(e, "if/else statement")
+            if i == len(items) - 1:
+                return rec(e)
+            raise Opaque(e, "statement in a predicate body")
+        return seq(0)
+    if k in ("return", "ireturn") and "e" in n:
+        return rec(n["e"])
+    if k == "if" and "else" in n:
+        return ite(rec(n["cond"]), rec(n["then"]), rec(n["else"]))
     if k == "lit" and isinstance(n.get("v"), bool):
         return ("const", n["v"])
     if k == "unary" and n["op"] == "!":
